@@ -1528,15 +1528,27 @@ func (*RecordReader) parseReadSize(layout string, dst *uint64, needBrace bool) (
 		}, end, nil
 
 	case "ascii", "number":
+		// The formatter writes signed numbers (leader epochs, producer
+		// IDs and producer epochs are commonly -1), so we accept a
+		// leading minus sign and parse as signed.
+		var nread int // bytes accepted so far for the number being read
 		return readParse{
 			readKind{condition: func(b byte) int8 {
+				if b == '-' && nread == 0 {
+					nread++
+					return 1 // digits must follow
+				}
 				if b < '0' || b > '9' {
+					nread = 0
 					return -1
 				}
+				nread++
 				return 2 // ignore EOF if we hit it after this
 			}},
-			func(b []byte, _ *Record) (err error) {
-				*dst, err = strconv.ParseUint(kbin.UnsafeString(b), 10, 64)
+			func(b []byte, _ *Record) error {
+				nread = 0
+				i, err := strconv.ParseInt(kbin.UnsafeString(b), 10, 64)
+				*dst = uint64(i)
 				return err
 			},
 		}, end, nil
